@@ -85,7 +85,7 @@ def run_history(key, text, reqs, sabotage=None):
     steps = []
     for k, (cls, be) in enumerate(reqs):
         fresh = _fresh(key, text, cls, be)
-        got = ct.request(tree, cls, be)
+        got = ct.request(tree, cls, be, scribble=True)   # the returned flat tree is the caller's: overwrite it
         st = {"cls": cls, "be": be, "got": ct.short(got), "fresh": ct.short(fresh) if fresh else None,
               "same": True if fresh is None else ct.same_outcome(got, fresh),
               "unstable": fresh is None, "msg": got[2][:200] if got[0] == "exc" else ""}
